@@ -916,14 +916,16 @@ def c02(tier):
                         "the identifier of an open exchange in between. Configuration qosresume: exchanges that span connections of one client identifier "
                         "(PUBLISH and PUBREC on one connection, PUBREL on the next; CleanSession 0 and 1, DISCONNECT and cut). "
                         "Plus TLC -simulate behaviours with up to 40 exchanges open at once (the incoming queue grows while its head has moved).",
-                        extra=lambda v: q2many(v, tier), frag_item=0)
+                        extra=lambda v: (q2many(v, tier), answers_validate(v, "C02", tier)), frag_item=0)
 
 
 @check("C07")
 def c07(tier):
     return broker_check("C07", tier, [("SubsSpec", "cover", 5, 6, "mockSuccess"), ("SubsSpec", "paths", 2, 3, "mockSuccess"), ("SubsSpec", "cover", 4, 5, "mockSuccess", 1), ("SubsLastSpec", "paths", 5, 6, "mockSuccess"), ("SubsBigSpec", "paths", 3, 4, "mockSuccess"), ("Sess1LastSpec", "paths", 7, 8, "mockSuccess")], {"C07", "C01", "C08"},
                         "configuration subs: SUBSCRIBE requests with 1..9 filters incl. invalid filters and QoS 3, two packet ids, UNSUBSCRIBE lists of 1..9, "
-                        "probe publishes from a second client; SUBACK/UNSUBACK bytes and subsequent deliveries compared.", frag_item=1)
+                        "probe publishes from a second client; SUBACK/UNSUBACK bytes and subsequent deliveries compared. Concurrent regime: recorded runs with "
+                        "subscription churn under load, every handled SUBSCRIBE / UNSUBSCRIBE answered exactly once with its identifier (AnswerTrace).", frag_item=1,
+                        extra=lambda v: answers_validate(v, "C07", tier))
 
 
 @check("C08")
@@ -1296,6 +1298,68 @@ def fanin_validate(v, pid, tier):
             v.notes.append("trace rejected on an observable of %s: %s" % (owner, m["what"][:200]))
             v.cov["diverged_foreign"] = v.cov.get("diverged_foreign", 0) + 1
     v.add_samples([json.loads(x) for x in lines[200:204]], 4)
+    return ok
+
+
+ANSWER_CFG = """SPECIFICATION Spec
+CONSTANTS
+ Conns = {"s0", "s1", "s2", "p0", "p1", "p2", "p3", "p4", "rw", "rs"}
+INVARIANTS Report
+POSTCONDITION Accepted
+"""
+ANSWER_OWNER = {3: "C02", 6: "C02", 5: "C12", 8: "C07", 10: "C07", 12: "C19"}
+
+
+def answers_validate(v, pid, tier):
+    """Concurrent regime of 'every request is answered exactly once with its identifier': recorded runs of a real broker
+    (publishers at QoS 0/1/2, subscription churn, PINGREQs) validated by TLC against AnswerTrace."""
+    thorough = tier == "thorough"
+    runs, msgs = (12, 40) if not thorough else (120, 40)
+    tmp = tempfile.mkdtemp(prefix="verif-answers-")
+    try:
+        tf = os.path.join(tmp, "trace.ndjson")
+        p = core.run_harness(["fanin", "-seed", str(core.seed() + 17), "-runs", str(runs), "-msgs", str(msgs), "-out", tf], timeout=1800)
+        if p.returncode != 0:
+            raise Infra("fanin recorder failed: %s" % (p.stderr or "")[-2000:])
+        res = json.loads(p.stdout.strip().splitlines()[-1])
+        if res.get("counts", {}).get("infra"):
+            raise Infra("fanin recorder: %s" % res.get("notes")[:2])
+        text = open(tf).read()
+    finally:
+        import shutil
+        shutil.rmtree(tmp, ignore_errors=True)
+    lines = []
+    for ln in text.splitlines():
+        e = json.loads(ln)
+        if e.get("e") in ("proc", "quiet", "reset") or (e.get("e") == "enq" and e.get("ty") != 3):
+            lines.append(json.dumps({"e": e["e"], "s": e.get("s", ""), "ty": e.get("ty", 0), "id": e.get("id", 0)}))
+    ok, matched, reports, why = validate_trace(v, "AnswerTrace", ANSWER_CFG, "\n".join(lines) + "\n", "AnswerTrace", "answers under concurrent load")
+    rep = reports[-1]["report"] if reports else None
+    v.cov["parts"]["answers-in-recorded-concurrent-runs"] = {"runs": runs, "events": len(lines), "matched_prefix": matched, "spec_report": rep,
+                                                             "stuck_runs": res.get("counts", {}).get("stuck_runs", 0)}
+    v.cov["traces_validated_against_impl"] += runs
+    v.cov["evaluations"] += len(lines)
+    if ok and rep and rep.get("answered", 0) < 50:
+        raise Infra("AnswerTrace: only %s answered packets in the recording" % rep.get("answered"))
+    if not ok:
+        k = min(max(matched - 1, 0), len(lines) - 1)
+        ev = json.loads(lines[k])
+        # the packet whose answer is wrong: the proc event at (or, for 'quiet', before) the rejection
+        owner = ANSWER_OWNER.get(ev.get("ty"), pid) if ev.get("e") == "proc" else pid
+        lo = k
+        while lo > 0 and not (json.loads(lines[lo - 1]).get("e") == "proc" and json.loads(lines[lo - 1]).get("s") == ev.get("s")) and k - lo < 400:
+            lo -= 1
+        since = [json.loads(x) for x in lines[lo:k + 1] if json.loads(x).get("s") == ev.get("s")]
+        what = ("recorded concurrent run rejected by AnswerTrace at event %d (%s): connection %s handled packet type %s id %s; packets other than PUBLISH it enqueued since its previous packet: %s"
+                % (matched, why, ev.get("s"), ev.get("ty"), ev.get("id"), [(x["ty"], x["id"]) for x in since if x["e"] == "enq"]))
+        if ev.get("e") == "quiet":
+            what = "recorded concurrent run: all traffic was sent and every connection is open, but a handled request was never answered (AnswerTrace!Quiet, event %d)" % matched
+        m = {"what": what, "tag": owner, "replay": {"seed": core.seed() + 17, "events": lines[max(0, k - 12):k + 1]}}
+        if owner == pid:
+            v.mismatch(m)
+        else:
+            v.notes.append("answer trace rejected on an observable of %s: %s" % (owner, what[:200]))
+            v.cov["diverged_foreign"] = v.cov.get("diverged_foreign", 0) + 1
     return ok
 
 
